@@ -103,6 +103,7 @@ type op struct {
 	C   string `json:"c,omitempty"`
 	K   string `json:"k,omitempty"`
 	Exp string `json:"exp,omitempty"`
+	Rep int    `json:"rep,omitempty"` // par behaviours: the Write is issued this many times
 }
 
 type streamBeh struct {
@@ -112,15 +113,21 @@ type streamBeh struct {
 	Start  string `json:"start"` // live: reader runs concurrently; late: reader starts after the script
 	Salt   int64  `json:"salt"`
 	Script []op   `json:"script"`
+	// concurrent writers: Par other tunnels write ParFrames data frames each through their own
+	// FrameStream on the same crossnode.Conn, in parallel with our writer (payload class ParPl)
+	Par       int    `json:"par,omitempty"`
+	ParFrames int    `json:"parFrames,omitempty"`
+	ParPl     string `json:"parPl,omitempty"`
 }
 
 // idSet is the tunnel-id material of one behaviour: our id and three foreign ids, as the raw
 // 16-byte header fields the code works with, plus a printable description for the trace.
-//   same    : a different tunnel whose header field is byte-identical (ids differing beyond
-//             byte 16, or by trailing NULs) - the known 16-byte finding;
-//   diff    : differs in the first bytes;
-//   diffNul : agrees with ours up to the first 0x00 byte of the field and differs after it
-//             (for ids without a NUL: differs in the last byte only).
+//
+//	same    : a different tunnel whose header field is byte-identical (ids differing beyond
+//	          byte 16, or by trailing NULs) - the known 16-byte finding;
+//	diff    : differs in the first bytes;
+//	diffNul : agrees with ours up to the first 0x00 byte of the field and differs after it
+//	          (for ids without a NUL: differs in the last byte only).
 type idSet struct {
 	own, same, diff, diffNul [16]byte
 	desc                     []string
@@ -235,7 +242,7 @@ func driveStream(env *fw.Env, sb *streamBeh) *fw.Trace {
 	total := 0
 	for _, o := range sb.Script {
 		if o.Op == "write" {
-			total += sizeOf(o.C)
+			total += sizeOf(o.C) * max(o.Rep, 1)
 		}
 	}
 	own := ownStream(sb.Salt, total)
@@ -277,6 +284,11 @@ func driveStream(env *fw.Env, sb *streamBeh) *fw.Trace {
 		injs = append(injs, in)
 	}
 
+	for j := 0; j < sb.Par; j++ { // the concurrent foreign tunnels, for attribution of delivered bytes
+		injs = append(injs, injected{k: "fd", ty: "data", idrel: "diff", payload: fill(0x80|byte(len(injs)&0x3f), 1)})
+	}
+	firstPar := len(injs) - sb.Par
+
 	var helpers sync.WaitGroup // every goroutine of this behaviour ends before drive returns
 	defer helpers.Wait()
 	defer ta.Close()
@@ -289,27 +301,69 @@ func driveStream(env *fw.Env, sb *streamBeh) *fw.Trace {
 	go func() { // the writer script: real FrameStream.Write / CloseWrite / Close, real WriteFrame for injections
 		defer helpers.Done()
 		pos, ii := 0, 0
+		// other tunnels multiplexed on the same connection, each with its own FrameStream (own
+		// writeMu) and goroutine: only WriteFrame's atomicity keeps their frames apart from ours
+		var par sync.WaitGroup
+		parStarted := false
+		waitPar := func() {
+			if parStarted {
+				par.Wait()
+			}
+		}
+		defer waitPar()
+		if sb.Par > 0 {
+			parStarted = true
+			for j := 0; j < sb.Par; j++ {
+				fid := diffID
+				fid[15] ^= byte(j + 1)
+				fid[14] ^= 0x5a
+				fs := crossnode.NewFrameStream(ca, fid)
+				b := injs[firstPar+j].payload[0]
+				prng := fw.NewRand(sb.Salt + int64(j)*7919)
+				par.Add(1)
+				go func() {
+					defer par.Done()
+					buf := fill(b, maxFrame)
+					for f := 0; f < sb.ParFrames; f++ {
+						n := 1 + prng.Intn(64)
+						if sb.ParPl == "M" {
+							n = maxFrame - prng.Intn(2)
+						}
+						if _, err := fs.Write(buf[:n]); err != nil {
+							return
+						}
+					}
+				}()
+				wEvents = append(wEvents, fw.Event{"ev": "Inj", "k": "fd", "idrel": "diff", "ty": "data", "len": 0, "fallback": false, "par": sb.ParFrames})
+			}
+		}
 		for _, o := range sb.Script {
 			switch o.Op {
 			case "write":
 				n := sizeOf(o.C)
-				ret, err := ws.Write(own[pos : pos+n])
-				wEvents = append(wEvents, fw.Event{"ev": "W", "op": "write", "c": o.C, "n": n, "ret": ret, "err": err != nil})
-				// a refused / short Write of a legal size is an observation (judged under Complete),
-				// never a driver error; the stream continues after the bytes that were accepted
-				if o.Exp == "ok" {
+				sumN, sumRet, anyErr := 0, 0, false
+				for r := 0; r < max(o.Rep, 1); r++ {
+					ret, err := ws.Write(own[pos : pos+n])
+					// a refused / short Write of a legal size is an observation (judged under Complete),
+					// never a driver error; the stream continues after the bytes that were accepted
 					if ret < 0 || ret > n {
 						ret = 0
 					}
-					pos += ret
-					if err != nil || ret != n {
-						ownRefused = true
+					sumN, sumRet, anyErr = sumN+n, sumRet+ret, anyErr || err != nil
+					if o.Exp == "ok" {
+						pos += ret
+						if err != nil || ret != n {
+							ownRefused = true
+						}
 					}
 				}
+				wEvents = append(wEvents, fw.Event{"ev": "W", "op": "write", "c": o.C, "n": sumN, "ret": sumRet, "err": anyErr, "rep": max(o.Rep, 1)})
 			case "eof":
+				waitPar()
 				err := ws.CloseWrite()
 				wEvents = append(wEvents, fw.Event{"ev": "W", "op": "eof", "c": "", "n": 0, "ret": 0, "err": err != nil})
 			case "close":
+				waitPar()
 				err := ws.Close()
 				wEvents = append(wEvents, fw.Event{"ev": "W", "op": "close", "c": "", "n": 0, "ret": 0, "err": err != nil})
 			case "inj":
@@ -525,7 +579,7 @@ loop:
 	}
 
 	t := &fw.Trace{Status: fw.Realised}
-	t.Events = append(t.Events, fw.Event{"ev": "Cfg", "kind": "stream", "idk": sb.Idk, "rsz": sb.Rsz, "start": sb.Start,
+	t.Events = append(t.Events, fw.Event{"ev": "Cfg", "kind": "stream", "idk": sb.Idk, "rsz": sb.Rsz, "start": sb.Start, "par": sb.Par,
 		"ids": fmt.Sprintf("%q", ids.desc)})
 	t.Events = append(t.Events, wEvents...)
 	for _, r := range rr.runs {
